@@ -248,6 +248,14 @@ func (q *TransmitLimitedQueue) deleteItem(cur *limitedBroadcast) {
 // addItem adds the given item into the overall datastructure. You must already
 // hold the mutex.
 func (q *TransmitLimitedQueue) addItem(cur *limitedBroadcast) {
+	// deleteItem restarts the id generator whenever the tree is momentarily
+	// empty, which also happens while items are held out for re-insertion or
+	// while a newer broadcast replaces the last queued one. Never let the
+	// generator fall behind an id that is (back) in the queue, or a later
+	// broadcast would reuse that id and silently replace the queued item.
+	if cur.id > q.idGen {
+		q.idGen = cur.id
+	}
 	_ = q.tq.ReplaceOrInsert(cur)
 	if cur.name != "" {
 		q.tm[cur.name] = cur
